@@ -168,13 +168,15 @@ def globFuel (p t : List Nat) : Nat := p.length + (p.length + 1) * (t.length + 1
 /-- `pattern_matches(pattern, text)` over the `char`s of both. -/
 def globChars (p t : List Nat) : Bool := (globLoop (globFuel p t) p t none).getD false
 
-/-- MATCH as the engine applies it: both sides lossily decoded first. -/
-def matchBytes (pat key : Bytes) : Bool := globChars (decodeLossy pat) (decodeLossy key)
+/-- MATCH as the engine applies it: both sides lossily decoded first (`lossy = true`, the code as
+    it is), or byte by byte (`lossy = false`, the prescribed behaviour). -/
+def matchBytes (lossy : Bool) (pat key : Bytes) : Bool :=
+  if lossy then globChars (decodeLossy pat) (decodeLossy key) else globChars pat key
 
-def matchOpt (pat : Option Bytes) (key : Bytes) : Bool :=
+def matchOpt (lossy : Bool) (pat : Option Bytes) (key : Bytes) : Bool :=
   match pat with
   | none => true
-  | some p => matchBytes p key
+  | some p => matchBytes lossy p key
 
 end Code
 
@@ -261,7 +263,8 @@ end Spec
 
 /-! ## One SCAN call over the sorted list of candidate keys -/
 
-/-- The three constants of the scan loop (regenerated from the source into `Gen.scanCfg`). -/
+/-- The three constants of the scan loop and the MATCH switch (regenerated from the source into
+    `Gen.scanCfg`). -/
 structure Cfg where
   /-- `if count == 0 { 10 }` -/
   dflt : Nat
@@ -269,6 +272,8 @@ structure Cfg where
   cap : Nat
   /-- `keys_examined < max_scan_count * 10` -/
   factor : Nat
+  /-- MATCH runs on `String::from_utf8_lossy` text (true) or on the bytes (false) -/
+  lossy : Bool
   deriving Repr, DecidableEq
 
 def Cfg.ok (g : Cfg) : Prop := 1 ≤ g.dflt ∧ 1 ≤ g.cap ∧ 1 ≤ g.factor
@@ -330,12 +335,12 @@ namespace Code
 
 /-- `StorageEngine::scan(db, cursor, pattern, type_filter, count)`. -/
 def scan (g : Cfg) (db : Db) (cursor count : Nat) (pat ty : Option Bytes) : Nat × List Bytes :=
-  scanSorted g (matchOpt pat) (view ty db) cursor count
+  scanSorted g (matchOpt g.lossy pat) (view ty db) cursor count
 
 /-- `sscan`: fast path (whole set, hash order — modelled sorted) or the sorted cursor walk. -/
 def sscan (g : Cfg) (members : List Bytes) (cursor count : Nat) (pat : Option Bytes) : Nat × List Bytes :=
   if members.length ≤ normCount g count ∧ cursor = 0 ∧ pat = none then (0, sortKeys members)
-  else scanSorted g (matchOpt pat) (sortKeys members) cursor count
+  else scanSorted g (matchOpt g.lossy pat) (sortKeys members) cursor count
 
 def fastPath (g : Cfg) (n cursor count : Nat) (pat : Option Bytes) : Bool :=
   n ≤ normCount g count ∧ cursor = 0 ∧ pat = none
